@@ -15,6 +15,8 @@ EXTRA_TRUSTED = ["Model/Tables.lean: deepcopy = fresh cell, in-place change = wr
                  "apply() is exercised with pure functions only (the property's 'leaves the original untouched' presupposes that)"]
 ASSUMPTIONS = ["symmetric=True tables (the default and the only kind the library creates)"]
 NAMES = ['poly', 'B', 'solvent', 'D4']
+# integer labels are legal type names too (the falsy 0 among them; none equals its position)
+LABELS = {'names': NAMES, 'ints0': [2, 0, 3, 1], 'ints': [7, 0, 5, 2], 'mixed': ['poly', 0, 'B', 4]}
 
 class Box(object):
     """a value with NESTED mutable state (like a potential object holding an array): only a deep copy isolates it"""
@@ -54,7 +56,8 @@ def keyfor(idx, types, style):
     names = [types[i] for i in idx]
     if style == 'single': return names[0]
     if style == 'tuple': return tuple(names)
-    if style == 'array': return np.array(names)
+    if style == 'array': return np.array(names) if (all(isinstance(x, str) for x in names) or not any(isinstance(x, str) for x in names)) else names
+    if style == 'iter': return iter(list(names))          # a one-shot iterable (generator, reversed(), map()) is a legal list key
     return names
 
 def observe(tables, objs, types):
@@ -102,7 +105,7 @@ class Spec:
         return '%s objs %s' % (' '.join(parts), ' '.join(vshow(o) for o in self.objs))
 
 def suite_pt(ctx, case):
-    n = case['n']; types = NAMES[:n]
+    n = case['n']; types = list(LABELS[case.get('labels', 'names')][:n])
     tables = [PairTable(types, 't0')]; objs = []
     drv = ctx.drv; drv.ask('pt.new %d' % n)
     spec = Spec(n)
@@ -161,7 +164,7 @@ def suite_pt(ctx, case):
         ctx.pred('pairtable', {'n': n, 'ops': case['ops'], 'iter': [full, diag]}, ok, 'iterpairs(full=%d,diagonal=%d) wrong' % (full, diag), key='C14:iterpairs')
 
 def suite_vt(ctx, case):
-    n = case['n']; types = NAMES[:n]
+    n = case['n']; types = list(LABELS[case.get('labels', 'names')][:n])
     vt = ValueTable(types, 'v'); drv = ctx.drv; drv.ask('vt.new %d' % n)
     cur = {}
     for step, op in enumerate(case['ops']):
@@ -204,7 +207,7 @@ def gen_pt(rng, max_ops):
         if k == 'obj':
             ops.append({'op': 'obj', 'v': [rng.randrange(50) for _ in range(rng.randint(0, 3))]}); nobj += 1
         elif k == 'set':
-            s1 = rng.choice(['single', 'list', 'tuple', 'array']); s2 = rng.choice(['single', 'list', 'tuple', 'array'])
+            s1 = rng.choice(['single', 'list', 'tuple', 'array', 'iter']); s2 = rng.choice(['single', 'list', 'tuple', 'array'])
             ops.append({'op': 'set', 'T': rng.randrange(ntab), 'k': rng.randrange(nobj), 'is': idx_list(rng, n, s1), 'js': idx_list(rng, n, s2), 's1': s1, 's2': s2})
         elif k == 'unset':
             ops.append({'op': 'unset', 'T': rng.randrange(ntab), 'k': rng.randrange(nobj)})
@@ -216,16 +219,16 @@ def gen_pt(rng, max_ops):
             ops.append({'op': 'mutate', 'T': rng.randrange(ntab), 'i': rng.randrange(n), 'j': rng.randrange(n), 'kind': kind, 'x': x})
         else:
             ops.append({'op': 'mutobj', 'k': rng.randrange(nobj), 'kind': kind, 'x': x})
-    return {'n': n, 'ops': ops, 'nested': rng.random() < 0.5}
+    return {'n': n, 'ops': ops, 'nested': rng.random() < 0.5, 'labels': rng.choice(['names', 'names', 'ints0', 'ints', 'mixed'])}
 
 def gen_vt(rng, max_ops):
     n = rng.choice([1, 2, 3, 4]); ops = []
     for _ in range(rng.randint(1, max_ops)):
         if rng.random() < 0.25: ops.append({'op': 'unset', 'v': rng.choice([0, rng.randrange(1000)])})
         else:
-            style = rng.choice(['single', 'list', 'tuple', 'array'])
+            style = rng.choice(['single', 'list', 'tuple', 'array', 'iter'])
             ops.append({'op': 'set', 'ts': idx_list(rng, n, style), 'style': style, 'v': rng.choice([0, 0, rng.randrange(1000), rng.randrange(1000)])})
-    return {'n': n, 'ops': ops, 'arr': rng.random() < 0.35}
+    return {'n': n, 'ops': ops, 'arr': rng.random() < 0.35, 'labels': rng.choice(['names', 'names', 'ints0', 'ints', 'mixed'])}
 
 def generate(ctx):
     max_ops = ctx.n(12, 40)
